@@ -1399,29 +1399,20 @@ func (x *Index) PathLookup(ctx context.Context, signer, base blob.Ref, suffix st
 	if err != nil {
 		return nil, err
 	}
-	var (
-		newest    = int64(0)
-		atSeconds = int64(0)
-		best      *camtypes.Path
-	)
-
-	if !at.IsZero() {
-		atSeconds = at.Unix()
-	}
+	var best *camtypes.Path
 
 	for _, path := range paths {
 		t := path.ClaimDate
-		secs := t.Unix()
-		if atSeconds != 0 && secs > atSeconds {
+		if !at.IsZero() && t.After(at) {
 			// Too new
 			continue
 		}
-		if newest > secs {
+		if best != nil && best.ClaimDate.After(t) {
 			// Too old
 			continue
 		}
 		// Just right
-		newest, best = secs, path
+		best = path
 	}
 	if best == nil {
 		return nil, os.ErrNotExist
